@@ -91,9 +91,19 @@ def run_case(case):
                 else:
                     prekw = {'threshold': pthr} if pthr is not None else {'n_sim': n}
                 labels.append('earlier-run=' + (pre if pre == 'same' else pre[0]))
-                rej.sample(n, bar=False, **prekw)
+                first = rej.sample(n, bar=False, **prekw)
+                first_snap = {k: np.array(v, copy=True) for k, v in first.outputs.items()}
+                first_meta = (float(first.threshold), int(first.n_sim), int(first.n_batches))
                 models.reset()        # the oracle judges the second run by what the second run consumed
             res = rej.sample(n, bar=False, **objkw)
+            if pre is not None:
+                # the result the earlier call returned belongs to the caller: running the sampler again must not rewrite it
+                changed = sorted(k for k, v in first_snap.items() if not np.array_equal(np.asarray(first.outputs[k]), v, equal_nan=True))
+                meta_now = (float(first.threshold), int(first.n_sim), int(first.n_batches))
+                if changed or not (meta_now == first_meta or (np.isnan(meta_now[0]) and np.isnan(first_meta[0]) and meta_now[1:] == first_meta[1:])):
+                    raise Violation('C01:earlier-result-rewritten-by-later-run',
+                                    'after sample(%d, %r) the result returned by the earlier sample(%d, %r) on the same sampler changed in %r (threshold/n_sim/n_batches %r -> %r); model=%r'
+                                    % (n, objkw, n, prekw, changed, first_meta, meta_now, desc))
     log = list(models.LOG)
     bis = [b for b, _, _ in log]
     B = len(log)
